@@ -30,5 +30,7 @@ def run(ctx):
     ctx.run_rule("R1c", r_round.rule_R1_c)
     ctx.run_rule("K4c", r_round.rule_K4_c)
     ctx.run_rule("K5c", r_round.rule_K5_c)
+    ctx.run_rule("F8c", r_round.rule_F8_c)
+    ctx.run_rule("STc", r_round.rule_ST_c)
     import r_cbudget
     ctx.run_rule("PB", r_cbudget.rule_PB)
